@@ -167,3 +167,45 @@ def mul(sc, a, b):
 
 def scale(a, q):
     return [(c * q, o, x) for c, o, x in a]
+
+
+# ------------------------------------------------------------------ order bookkeeping tables (tie D with Adc/Series.lean)
+
+def check_series_tables(ctx, which=("orders", "inv", "invsqrt")):
+    """adcgen's enumerators of perturbation orders against the Lean model (theorems mem_genTermOrders,
+    coeff_prod_genTermOrders, invSeries_mul, invSqrtSeries_sq_mul, expandTaylor_coeff are about the model)"""
+    from adcgen import Operators, GroundState, IntermediateStates
+    from adcgen.func import gen_term_orders
+    drv = ctx.drv()
+    top = ctx.pick(7, 10)
+    if "orders" in which:
+        for order in range(top + 1):
+            for ln in range(0, 5):
+                for mn in range(0, 4):
+                    if (order - mn + 1) ** ln > 100000:
+                        continue
+                    got = [list(t) for t in gen_term_orders(order, ln, mn)]
+                    ans = drv.ask({"op": "orders", "order": order, "len": ln, "min": mn})
+                    ctx.count("gen_term_orders_tables")
+                    ctx.case(("orders", order, ln, mn), nontrivial=len(got) > 1)
+                    if "r" not in ans or got != ans["r"]:
+                        ctx.violation(f"gen_term_orders({order}, {ln}, {mn}) = {got} differs from the model genTermOrders: {ans.get('r', ans)}",
+                                      {"kind": "table", "function": "gen_term_orders", "args": [order, ln, mn]})
+    gs = GroundState(Operators())
+    isr = IntermediateStates(gs)
+    for name, fn in (("inv", gs.expand_norm_factor), ("invsqrt", isr.expand_S_taylor)):
+        if name not in which:
+            continue
+        for order in range(top + 3):
+            for mn in range(1, 4):
+                if order >= mn and (order - mn + 1) ** (order // mn) > 100000:
+                    continue          # the model enumerates the full product eagerly
+                got = fn(order, min_order=mn)
+                got = [[[int(sympy.Rational(p).p), int(sympy.Rational(p).q)], [list(t) for t in ol]] for p, ol in got]
+                ans = drv.ask({"op": "taylor", "order": order, "min": mn, "f": name})
+                ctx.count(f"taylor_tables({name})")
+                ctx.case(("taylor", name, order, mn), nontrivial=order >= 2 * mn)
+                if "r" not in ans or got != ans["r"]:
+                    fname = "GroundState.expand_norm_factor" if name == "inv" else "IntermediateStates.expand_S_taylor"
+                    ctx.violation(f"{fname}({order}, min_order={mn}) = {got} differs from the model expandTaylor: {ans.get('r', ans)}",
+                                  {"kind": "table", "function": fname, "args": [order, mn]})
